@@ -2,5 +2,6 @@ SPECIFICATION Spec
 CONSTANTS
   NInst = 3
   NSeg = 2
+  Reps = 2
 INVARIANT Emit
 CHECK_DEADLOCK FALSE
